@@ -668,3 +668,29 @@ def catalogue_uniform(N=6):
         "Perm": ["Perm", {"n": N}],
     }
     return cat
+
+
+def pd_terms(tier="quick", n=3):
+    """(name, term) for every catalogue term / nesting that is positive definite by construction, plus triangular ones."""
+    cat = catalogue(n, include_rect=False)
+    out = []
+    for name, t in cat.items():
+        (r, c), b = shape_of_safe(t)
+        if b is not None and r == c and (b.pd or b.tri in ("lower", "upper")) and "Zero" not in heads_of(t):
+            out.append((name, t, "tri" if (not b.pd and b.tri in ("lower", "upper")) else "pd"))
+    wrappers = ["ConstMul", "BlockDiag", "BlockInterleaved", "SumBatch", "BatchRepeat", "MaskedSym", "AddedDiag", "AddedConstDiag", "KronLeft", "MulPSD",
+                "Tri", "Chol"]
+    nest = nestings(n, wrappers=wrappers)
+    for name, t in nest.items():
+        (r, c), b = shape_of_safe(t)
+        if b is None or r != c or "Zero" in heads_of(t):
+            continue
+        if b.pd or (name.startswith("Tri(") and b.tri in ("lower", "upper")):
+            if name.startswith("KronLeft(") and not _kron_pd(t):
+                continue
+            out.append((name, t, "pd" if b.pd else "tri"))
+    return out
+
+
+def _kron_pd(term):
+    return False  # KronLeft pairs the operand with a generic (non-PD) dense factor
